@@ -130,6 +130,8 @@ theorem parse_ok {H : Http} {n v : Bytes} {f : Field} (h : Field.parse H n v = .
     cases h
     exact .header hne' (by simpa using hp) (by simpa using hn) (by simpa using hv)
   split at h
+  · cases h
+  split at h
   · rename_i e; obtain ⟨x, hx, rfl⟩ := tryValue_ok h; exact .scheme x e hx
   split at h
   · rename_i e; obtain ⟨x, hx, rfl⟩ := tryValue_ok h; exact .authority x e hx
@@ -156,6 +158,87 @@ theorem parse_ne_panic (H : Http) (n v : Bytes) : Field.parse H n v ≠ .panic :
   unfold Field.parse
   repeat' split
   all_goals first | (intro h; cases h) | exact tryValue_ne_panic _ _ _
+
+/-! ### `pseudo_value_syntax` (the D-12g fix) against the RFC 3986 conditions of the specification -/
+
+theorem isAlpha_iff (b : Nat) : isAlpha b = true ↔ ALPHA b := by
+  simp only [isAlpha, ALPHA, UPPER, LOWER, Bool.or_eq_true, Bool.and_eq_true, decide_eq_true_eq]
+
+theorem isDigit_iff (b : Nat) : isDigit b = true ↔ DIGIT b := by
+  simp only [isDigit, DIGIT, Bool.and_eq_true, decide_eq_true_eq]
+
+/-- the `:scheme` arm is the whole grammar of RFC 3986 §3.1 -/
+theorem schemeSyntax_iff (v : Bytes) : schemeSyntax v = true ↔ SchemeSyntax v := by
+  have hfirst : firstIsAlpha v = true ↔ StartsAlpha v := by
+    cases v with
+    | nil => simp [firstIsAlpha, StartsAlpha]
+    | cons b r => simp only [firstIsAlpha, StartsAlpha, isAlpha_iff]
+  simp only [schemeSyntax, SchemeSyntax, Bool.and_eq_true, hfirst, List.all_eq_true, isSchemeByte,
+    Bool.or_eq_true, isAlpha_iff, isDigit_iff, beq_iff_eq, or_assoc]
+
+theorem hostPortOf_eq (v : Bytes) : hostPortOf v = hostPort v := by
+  unfold hostPortOf hostPort
+  congr 2
+  funext b
+  by_cases hb : b = 64 <;> simp [hb]
+
+/-- the `:authority` arm is the two necessary conditions of RFC 3986 §3.2 the specification asks -/
+theorem authoritySyntax_iff (v : Bytes) : authoritySyntax v = true ↔ AuthoritySyntax v := by
+  have hf : (v.filter (· == 64)) = (v.filter (fun b => decide (b = 0x40))) := by
+    congr 1
+  have hd : ((hostPort v).dropWhile (· != 58)) = ((hostPort v).dropWhile (fun b => decide (b ≠ 0x3a))) := by
+    congr 1; funext b; by_cases hb : b = 58 <;> simp [hb]
+  unfold authoritySyntax AuthoritySyntax
+  rw [hostPortOf_eq, hf, hd]
+  by_cases hc : (v.filter (fun b => decide (b = 0x40))).length > 1
+  · rw [if_pos hc]
+    constructor
+    · intro h; cases h
+    · intro h; omega
+  · rw [if_neg hc]
+    simp only [Bool.or_eq_true, beq_iff_eq, List.all_eq_true, isDigit_iff]
+    constructor
+    · intro h; exact ⟨by omega, h⟩
+    · intro h; exact h.2
+
+/-- the `:path` arm: no `#` -/
+theorem pathSyntax_iff (v : Bytes) : pathSyntax v = true ↔ PathSyntax v := by
+  simp [pathSyntax, PathSyntax]
+
+/-- what `pseudo_value_syntax` lets through satisfies the necessary condition of its field line -/
+theorem pseudoValueSyntax_spec {n v : Bytes} (h : pseudoValueSyntax n v = true) : PseudoSyntax n v := by
+  unfold pseudoValueSyntax at h
+  refine ⟨?_, ?_, ?_⟩
+  · intro e
+    rw [if_pos e] at h
+    exact (schemeSyntax_iff v).mp h
+  · intro e
+    have e1 : ¬ n = nScheme := by rw [e]; decide
+    rw [if_neg e1, if_pos e] at h
+    exact (authoritySyntax_iff v).mp h
+  · intro e
+    have e1 : ¬ n = nScheme := by rw [e]; decide
+    have e2 : ¬ n = nAuthority := by rw [e]; decide
+    rw [if_neg e1, if_neg e2, if_pos e] at h
+    exact (pathSyntax_iff v).mp h
+
+/-- with the D-12g fix a pseudo-header field `Field::parse` accepts has passed `pseudo_value_syntax`;
+    a regular field has nothing to pass (its name is none of the three) -/
+theorem parse_ok_syntax (hc : H3.Gen.Headers.pseudoSyntaxChecked = true) {H : Http} {n v : Bytes} {f : Field}
+    (h : Field.parse H n v = .ok f) : PseudoSyntax n v := by
+  by_cases hp : isPseudoName n = true
+  · apply pseudoValueSyntax_spec
+    unfold Field.parse at h
+    split at h
+    · cases h
+    rw [if_neg (by simp [hp])] at h
+    split at h
+    · cases h
+    · rename_i hs
+      simpa [hc] using hs
+  · have hp' : isPseudoName n = false := by simpa using hp
+    exact ⟨fun e => absurd (e ▸ hp') (by decide), fun e => absurd (e ▸ hp') (by decide),
+      fun e => absurd (e ▸ hp') (by decide)⟩
 
 /-! ### `HeaderMap` -/
 
@@ -456,6 +539,36 @@ theorem tryFrom_eq_loop (H : Http) (fs : List FieldLine) : tryFrom H fs = tryFro
 theorem tryFrom_ok {H : Http} {fs : List FieldLine} {h : Header} (e : tryFrom H fs = .ok h) : Inv H fs h := by
   rw [tryFrom_eq_loop] at e
   simpa using loop_inv H fs [] {} h (inv_nil H) e
+
+/-- every field line of a section the loop accepts was accepted by `Field::parse` -/
+theorem loop_parsed (H : Http) (fs : List FieldLine) :
+    ∀ (h0 h : Header), tryFromLoop H h0 fs = .ok h → ∀ g ∈ fs, ∃ f, Field.parse H g.1 g.2 = .ok f := by
+  induction fs with
+  | nil => intro _ _ _ g hg; cases hg
+  | cons g r ih =>
+    intro h0 h hl g' hg'
+    obtain ⟨n, v⟩ := g
+    simp only [tryFromLoop] at hl
+    split at hl
+    · rename_i f hf
+      split at hl
+      · unfold mapFull at hl; split at hl <;> cases hl
+      · rcases List.mem_cons.mp hg' with e | hm
+        · subst e; exact ⟨f, hf⟩
+        · exact ih _ _ hl g' hm
+    · cases hl
+    · cases hl
+
+/-- **the D-12g fix**: every `:scheme` / `:authority` / `:path` value of a section `Header::try_from`
+    accepts has passed h3's own check (`pseudo_value_syntax`), whatever the `http` parsers answer.
+    Needs `H3.Gen.Headers.pseudoSyntaxChecked = true`: the proof evaluates the generated constant. -/
+theorem tryFrom_syntax {H : Http} {fs : List FieldLine} {h : Header} (e : tryFrom H fs = .ok h) :
+    ∀ f ∈ fs, PseudoSyntax f.1 f.2 := by
+  have hc : H3.Gen.Headers.pseudoSyntaxChecked = true := rfl
+  rw [tryFrom_eq_loop] at e
+  intro g hg
+  obtain ⟨f, hf⟩ := loop_parsed H fs _ _ e g hg
+  exact parse_ok_syntax hc hf
 
 /-- needs `H3.Gen.Headers.mapFallible = true` (the fallible `HeaderMap` constructors): the proof
     evaluates the generated constant. -/
